@@ -111,6 +111,14 @@ def sweep_streams(tier):
     upd0 = MARK + b'\x00\x17\x02\x00\x00\x00\x00'
     for name, unit, cnt in [('KA', MARK + b'\x00\x13\x04', 1200), ('UPD0', upd0, 1100)] + ([('KA', MARK + b'\x00\x13\x04', 3000)] if tier == 'thorough' else []):
         out.append((('MANY=%d' % cnt, name), unit * cnt))
+    # a header of every known type whose length field covers one or two complete, valid messages that follow it (the body
+    # then LOOKS like messages: marker, length, type), and a KEEPALIVE after that
+    ka = MARK + b'\x00\x13\x04'
+    eor = MARK + b'\x00\x17\x02\x00\x00\x00\x00'
+    for typ in (1, 2, 3, 4, 5, 128):
+        for nm, inner in (('KA', ka), ('KA+KA', ka + ka), ('EOR', eor), ('KA+EOR', ka + eor)):
+            L = 19 + len(inner)
+            out.append((('COVER', 'T%d' % typ, nm, 'KA'), MARK + bytes([L >> 8, L & 255, typ]) + inner + ka))
     for t in range(256):
         out.append((('TYPE=%d' % t,), MARK + b'\x00\x13' + bytes([t])))
         out.append((('TYPE=%d+KA' % t,), MARK + b'\x00\x13' + bytes([t]) + MARK + b'\x00\x13\x04'))
@@ -136,7 +144,7 @@ def _work(args):
                 continue
             if sweep:
                 plans = [('whole', [])] + ([('1cut', [17]), ('1cut', [18])] if len(data) >= 19 else [])
-                if names[0] == 'MINLEN':
+                if names[0] in ('MINLEN', 'COVER'):
                     plans += [('1cut', [19]), ('1cut', [len(data) - 19]), ('bytewise', list(range(1, len(data))))]
                 if names[0].startswith('MANY'):
                     plans = [('whole', []), ('chunks1000', list(range(1000, len(data), 1000))), ('1cut', [len(data) // 2 + 7])]
